@@ -96,7 +96,8 @@ def run(ctx):
     if th:
         sigs.append(((((2, 0), 1), ((0, 0), 1)), (((2, 1), 1), ((1, 0), 1))))
     jobs = []
-    sig3 = ((((0, 0), 1), ((1, 0), 1)), (((1, 0), 1), ((0, 1), 1)))
+    # (two input channels of one type: channel / spatial-axis mix-ups in the filter layout only show for in_c >= 2)
+    sig3 = ((((0, 0), 2), ((1, 0), 1)), (((1, 0), 1), ((0, 1), 1)))
     for D in (2, 3):
         for si, (isig, osig) in enumerate(sigs if D == 2 else [sig3] + (sigs[:2] if th else [])):
             for bias in ["auto", "mean", "scalar", True, False]:
